@@ -692,12 +692,15 @@ def run_r5(repo: Repo, res: Result) -> None:
                         key_loops = {x for x in keids if x in it.loop_eids}
                         if vsrcs != ksrcs:
                             bad_vals.append(f"the key derives from {sorted(ksrcs)}, the search stored under it was run for {sorted(vsrcs)}")
-                        elif key_loops and not (it.cell(sh).born & key_loops):
+                        elif (vloops := {x for x in veids if x in it.loop_eids} & key_loops) and not (it.cell(sh).born & vloops):
+                            # the list outlives the iterations (over the keys) whose search results it holds
                             bad_vals.append("the list stored under a key is shared between the keys (created outside the loop over the keys): it also holds the imports found for other keys")
+                        elif key_loops and veids and not (veids & it.loop_eids):
+                            bad_vals.append("the list stored under every key is the result of one search for a fixed module (selected by position, not by the loop over the keys)")
                         elif veids != keids or not keids:
                             unsure.append("the search result and the key it is stored under could not be matched (they stem from different iterations)")
                         key_marks += [f"{mk[2]} [{mk[1]}]" for sc in vs for mk in sc.marks if mk[0] == "part"]
-                        key_marks += [f"{mk[2]} [{mk[1]}]" for mk in it.cell(sh).part]
+                        key_marks += [f"{mk[2]} [{mk[1]}]" for mk in it.effective_part(it.cell(sh))]
             n += 1
             missing = sorted(pset - used)
             ok = not key_marks and not bad_keys and not missing
